@@ -100,21 +100,32 @@ def obligations_of(prop_id):
     return names
 
 
-def lean_sources():
-    for root in ('PysparklingVerif', 'Driver'):
-        for d, _, fs in os.walk(os.path.join(LEAN, root)):
-            for f in fs:
-                if f.endswith('.lean'):
-                    yield os.path.join(d, f)
+def import_closure(roots):
+    """Project-local modules reachable from the given module names (textual `import` scan)."""
+    seen, todo = set(), list(roots)
+    while todo:
+        m = todo.pop()
+        if m in seen:
+            continue
+        path = os.path.join(LEAN, *m.split('.')) + '.lean'
+        if not os.path.exists(path):
+            continue
+        seen.add(m)
+        for line in open(path, encoding='utf-8'):
+            mm = re.match(r'\s*import\s+((?:PysparklingVerif|Driver)\.[\w.]+)', line)
+            if mm:
+                todo.append(mm.group(1))
+    return sorted(seen)
 
 
-def forbidden_scan():
+def forbidden_scan(modules):
     hits = []
-    for p in lean_sources():
+    for m in import_closure(modules):
+        p = os.path.join(LEAN, *m.split('.')) + '.lean'
         code = strip_lean_comments(open(p, encoding='utf-8').read())
-        for m in FORBIDDEN.finditer(code):
-            line = code.count('\n', 0, m.start()) + 1
-            hits.append('%s:%d:%s' % (os.path.relpath(p, LEAN), line, m.group(0).strip()))
+        for mt in FORBIDDEN.finditer(code):
+            line = code.count('\n', 0, mt.start()) + 1
+            hits.append('%s:%d:%s' % (os.path.relpath(p, LEAN), line, mt.group(0).strip()))
     return hits
 
 
@@ -146,7 +157,7 @@ def lean_build_and_audit(prop_id, extra_targets=(), leanchecker=False):
         for n in res.obligations:
             res.failed[n] = 'build failed'
         return res
-    hits = forbidden_scan()
+    hits = forbidden_scan([target, 'Driver.Main'] + [t for t in extra_targets if t.startswith('PysparklingVerif.')])
     if hits:
         res.build_ok = False
         for n in res.obligations:
